@@ -75,6 +75,15 @@ Definition model_w (H W len : nat) (vops : list vop) (custom : option shape) (ct
   | _ => WPanic
   end.
 
+(* every byte of a write in a call of its own *)
+Definition split_op (o : wop) : wop :=
+  match o with
+  | OWrite chunks => OWrite (map (fun b => [b]) (concat chunks))
+  | OWriteU chunks => OWriteU (map (fun b => [b]) (concat chunks))
+  | OWriteT chunks => OWriteT (map (fun b => [b]) (concat chunks))
+  | other => other
+  end.
+
 Definition window_of (H W : nat) (vops : list vop) (custom : option shape) : list nat :=
   match custom with
   | Some sh => shape_cells sh
@@ -135,22 +144,25 @@ Definition holds_t (H W : nat) (vops : list vop) (ctx : rctx) (cells : list ccel
 
 Inductive c09_case :=
 | CW (H W len : nat) (vops : list vop) (custom : option shape) (glyphs : bool) (cwt : list (N * nat))
-     (d : dfa) (sgr : list (list N * face * face)) (ops : list wop) (impl impl_merged : wres)
+     (d : dfa) (sgr : list (list N * face * face)) (ops : list wop) (impl impl_merged impl_bytes : wres)
 | CT (H W : nat) (vops : list vop) (glyphs : bool) (cwt : list (N * nat)) (cells : list ccell) (wraps : bool)
      (minh minw maxh maxw : nat) (impl : tres).
 
 Definition c09_check (c : c09_case) : bool * bool :=
   match c with
-  | CW H W len vops custom glyphs cwt d sgr ops impl merged =>
+  | CW H W len vops custom glyphs cwt d sgr ops impl merged bytewise =>
       let ctx := mkCtx glyphs cwt d sgr in
       ( wres_eqb (model_w H W len vops custom ctx ops) impl
-        && wres_eqb (model_w H W len vops custom ctx (map merge_op ops)) merged,
-        match impl, merged with
-        | WRes canvas _ _ _, WRes canvas' _ _ _ =>
+        && wres_eqb (model_w H W len vops custom ctx (map merge_op ops)) merged
+        && wres_eqb (model_w H W len vops custom ctx (map split_op ops)) bytewise,
+        (* three partitions of every write: as given, all bytes in one call, one byte per call *)
+        match impl, merged, bytewise with
+        | WRes canvas _ _ _, WRes canvas' _ _ _, WRes canvas'' _ _ _ =>
             outside_intact len (window_of H W vops custom) canvas
             && outside_intact len (window_of H W vops custom) canvas'
-            && nlist_eqb canvas canvas'
-        | _, _ => false
+            && outside_intact len (window_of H W vops custom) canvas''
+            && nlist_eqb canvas canvas' && nlist_eqb canvas canvas''
+        | _, _, _ => false
         end )
   | CT H W vops glyphs cwt cells wraps minh minw maxh maxw impl =>
       let ctx := mkCtx glyphs cwt dfa0 [] in
